@@ -31,11 +31,11 @@ pub fn poly_fn(module: &str, f: &str, a: &[&str]) -> Option<String> {
             ok(fmt_poly(&x))
         }
         ("pointwise_montgomery", 2) => {
-            let x = poly(a[0])?; let y = poly(a[1])?; let mut c = Poly::default();
+            let x = poly(a[0])?; let y = poly(a[1])?; let mut c = dirty_poly();
             poly::pointwise_montgomery(&mut c, &x, &y); ok(fmt_poly(&c))
         }
         ("power2round", 1) => {
-            let mut a1 = poly(a[0])?; let mut a0 = Poly::default();
+            let mut a1 = poly(a[0])?; let mut a0 = dirty_poly();
             poly::power2round(&mut a1, &mut a0);
             ok(format!("{} {}", fmt_poly(&a1), fmt_poly(&a0)))
         }
@@ -48,12 +48,12 @@ pub fn poly_fn(module: &str, f: &str, a: &[&str]) -> Option<String> {
         }
         ("uniform", 2) => {
             let seed = unhex(a[0])?; let nonce: u16 = a[1].parse().ok()?;
-            let mut x = Poly::default(); poly::uniform(&mut x, &seed, nonce); ok(fmt_poly(&x))
+            let mut x = dirty_poly(); poly::uniform(&mut x, &seed, nonce); ok(fmt_poly(&x))
         }
         ("t1_pack", 1) => { let x = poly(a[0])?; let mut r = vec![0xA5u8; params::POLYT1_PACKEDBYTES]; poly::t1_pack(&mut r, &x); ok(hex(&r)) }
-        ("t1_unpack", 1) => { let b = unhex(a[0])?; let mut x = Poly::default(); poly::t1_unpack(&mut x, &b); ok(fmt_poly(&x)) }
+        ("t1_unpack", 1) => { let b = unhex(a[0])?; let mut x = dirty_poly(); poly::t1_unpack(&mut x, &b); ok(fmt_poly(&x)) }
         ("t0_pack", 1) => { let x = poly(a[0])?; let mut r = vec![0xA5u8; params::POLYT0_PACKEDBYTES]; poly::t0_pack(&mut r, &x); ok(hex(&r)) }
-        ("t0_unpack", 1) => { let b = unhex(a[0])?; let mut x = Poly::default(); poly::t0_unpack(&mut x, &b); ok(fmt_poly(&x)) }
+        ("t0_unpack", 1) => { let b = unhex(a[0])?; let mut x = dirty_poly(); poly::t0_unpack(&mut x, &b); ok(fmt_poly(&x)) }
         _ => None,
     }
 }
@@ -65,12 +65,12 @@ macro_rules! poly_set {
             use crystals_dilithium::params::$pp as pp;
             match (f, a.len()) {
                 ("decompose", 1) => {
-                    let mut a1 = poly(a[0])?; let mut a0 = Poly::default();
+                    let mut a1 = poly(a[0])?; let mut a0 = dirty_poly();
                     pm::decompose(&mut a1, &mut a0);
                     ok(format!("{} {}", fmt_poly(&a1), fmt_poly(&a0)))
                 }
                 ("make_hint", 2) => {
-                    let a0 = poly(a[0])?; let a1 = poly(a[1])?; let mut h = Poly::default();
+                    let a0 = poly(a[0])?; let a1 = poly(a[1])?; let mut h = dirty_poly();
                     let s = pm::make_hint(&mut h, &a0, &a1);
                     ok(format!("{} {}", fmt_poly(&h), s))
                 }
@@ -84,17 +84,17 @@ macro_rules! poly_set {
                 }
                 ("uniform_eta", 2) => {
                     let seed = unhex(a[0])?; let nonce: u16 = a[1].parse().ok()?;
-                    let mut x = Poly::default(); pm::uniform_eta(&mut x, &seed, nonce); ok(fmt_poly(&x))
+                    let mut x = dirty_poly(); pm::uniform_eta(&mut x, &seed, nonce); ok(fmt_poly(&x))
                 }
                 ("uniform_gamma1", 2) => {
                     let seed = unhex(a[0])?; let nonce: u16 = a[1].parse().ok()?;
-                    let mut x = Poly::default(); pm::uniform_gamma1(&mut x, &seed, nonce); ok(fmt_poly(&x))
+                    let mut x = dirty_poly(); pm::uniform_gamma1(&mut x, &seed, nonce); ok(fmt_poly(&x))
                 }
-                ("challenge", 1) => { let seed = unhex(a[0])?; let mut x = Poly::default(); pm::challenge(&mut x, &seed); ok(fmt_poly(&x)) }
+                ("challenge", 1) => { let seed = unhex(a[0])?; let mut x = dirty_poly(); pm::challenge(&mut x, &seed); ok(fmt_poly(&x)) }
                 ("eta_pack", 1) => { let x = poly(a[0])?; let mut r = vec![0xA5u8; pp::POLYETA_PACKEDBYTES]; pm::eta_pack(&mut r, &x); ok(hex(&r)) }
-                ("eta_unpack", 1) => { let b = unhex(a[0])?; let mut x = Poly::default(); pm::eta_unpack(&mut x, &b); ok(fmt_poly(&x)) }
+                ("eta_unpack", 1) => { let b = unhex(a[0])?; let mut x = dirty_poly(); pm::eta_unpack(&mut x, &b); ok(fmt_poly(&x)) }
                 ("z_pack", 1) => { let x = poly(a[0])?; let mut r = vec![0xA5u8; pp::POLYZ_PACKEDBYTES]; pm::z_pack(&mut r, &x); ok(hex(&r)) }
-                ("z_unpack", 1) => { let b = unhex(a[0])?; let mut x = Poly::default(); pm::z_unpack(&mut x, &b); ok(fmt_poly(&x)) }
+                ("z_unpack", 1) => { let b = unhex(a[0])?; let mut x = dirty_poly(); pm::z_unpack(&mut x, &b); ok(fmt_poly(&x)) }
                 ("w1_pack", 1) => { let x = poly(a[0])?; let mut r = vec![0xA5u8; pp::POLYW1_PACKEDBYTES]; pm::w1_pack(&mut r, &x); ok(hex(&r)) }
                 _ => None,
             }
